@@ -172,6 +172,83 @@ def race_stress_C10(ctx):
     ctx.coverage.update(race_stress_runs=len(runs))
 
 
+RO_TIE_OBS = ["rows", "tree", "tape"]
+
+
+def readonly_model_tie(ctx):
+    """Correspondence for the model half of C15 (Props/C15Model.v): histories written by a writable instance, then the same drive and index
+    continued by a read-only instance with filesystem-level calls of every kind; M1 is evaluated in Coq with c_readonly switched at the same
+    point and compared with the implementation on outcome, all index rows, visible tree and tape length of every call."""
+    cached, p = streams.cache_get(ctx, "rotie")
+    if cached is None:
+        quick = ctx.tier == "quick"
+        rng = random.Random(ctx.seed * 211 + 5)
+        hs = []
+        for i in range(24 if quick else 240):
+            rs = rng.choice([1, 3, 20])
+            g = hist.Gen(random.Random(rng.random()), rs, alpha=hist.ALPHA[:8], max_calls=8 if quick else 16, ops_level=False)
+            pre = g.history({"rs": rs, "cache": "file"}, RO_TIE_OBS)
+            if not g.blobs:
+                g.blobs.append({"seed": 1, "len": 10})
+            names = sorted(g.files | g.dirs)[:6] + ["/nope", "/new", "/new/x"]
+            ro_calls = []
+            for _ in range(10 if quick else 24):
+                n = rng.choice(names)
+                k = rng.choice(["mkdir", "mkdirall", "createfile", "writefile", "writefile", "remove", "removeall", "rename", "chmod", "chown", "chtimes"])
+                c = {"op": k, "name": n}
+                if k in ("mkdir", "mkdirall", "chmod"):
+                    c["perm"] = 0o700
+                elif k == "createfile":
+                    c["blob"] = rng.randrange(len(g.blobs))
+                elif k == "writefile":
+                    if g.files and rng.random() < 0.7:
+                        c["name"] = rng.choice(sorted(g.files))
+                    c.update(flags=rng.choice([0, 1, 2, 0o101, 0o1101, 0o2001, 0o1002, 0o302, 0o100, 0o1000]), perm=0o644, blob=rng.randrange(len(g.blobs)), flag=rng.random() < 0.5)
+                elif k == "rename":
+                    c["name2"] = rng.choice(names)
+                elif k == "chown":
+                    c.update(uid=7, gid=8)
+                elif k == "chtimes":
+                    c.update(atime=1000000001, mtime=1100000001)
+                ro_calls.append(c)
+            pre["blobs"] = g.blobs
+            pre["calls"] = pre["calls"] + [{"op": "ro_switch", "flag": i % 2 == 1}] + ro_calls
+            hs.append(pre)
+        hs = [h for h in streams.replay_override(ctx, "history", hs, lambda h: dict(h, obs=RO_TIE_OBS)) if any(c["op"] == "ro_switch" for c in h["calls"])]
+        res = hist.run_many(hs)
+        defs, idx = [], []
+        for k, (h, (r, rc, e)) in enumerate(zip(hs, res)):
+            if rc != 0:
+                continue
+            t = hist.emit_ro_tie(h, r, hist.identity_of(r))
+            if t:
+                defs.append(t)
+                idx.append(k)
+        bad, okall, log = [], True, ""
+        for a in range(0, len(defs), 40):
+            ok, resd, lg = hist.coq_eval_list("From STFS Require Import Str Db Tape Index Ops Fs Diff.", defs[a:a + 40], "RoTie_%d_%d" % (ctx.seed, a))
+            okall = okall and ok
+            log += lg[-600:]
+            bad += [(idx[a + i], v.strip()[:80]) for i, v in resd.items() if v.strip() != "None"]
+        outs = collections.Counter()
+        for h, (r, rc, e) in zip(hs, res):
+            sw = next(i for i, c in enumerate(h["calls"]) if c["op"] == "ro_switch")
+            for c, x in list(zip(h["calls"], r))[sw + 1:]:
+                outs["%s:%s" % (c["op"], x["out"])] += 1
+        cached = dict(ok=okall, bad=bad, cases=len(defs), total=len(hs), log=log[-1200:], hs=[hs[k] for k, _ in bad[:3]], outs=dict(outs),
+                      crashed=[dict(history=h, exit_code=rc, stderr=e[-400:]) for h, (r, rc, e) in zip(hs, res) if rc != 0][:3])
+        streams.cache_put(p, cached)
+    ctx.oblige("correspondence (read-only model): M1 evaluates in Coq on the two-phase histories", cached["ok"] and cached["cases"] > 0, cached["log"])
+    ctx.oblige("correspondence (read-only model): M1 with c_readonly switched on and the read-only implementation agree on outcome, index rows, visible tree and tape length of every call (%d of %d histories comparable)" % (cached["cases"], cached["total"]),
+               cached["ok"] and not cached["bad"] and not cached["crashed"], json.dumps(cached["bad"][:5]))
+    for (k, v), h in zip(cached["bad"][:3], cached["hs"]):
+        ctx.violation("correspondence", "read-only model and implementation disagree: first difference %s (call index counted from the switch, kind 1 outcome 2 rows 3 tree 4 tape length)" % v,
+                      dict(history=h, first_difference=v), found_input=False)
+    for d in cached["crashed"]:
+        ctx.violation("crash-or-hang", "two-phase read-only history ended with exit code %s" % d["exit_code"], d)
+    ctx.coverage.update(ro_model_tie_histories=cached["cases"], ro_model_tie_outcomes=cached["outs"])
+
+
 def readonly_C15(ctx, proof_ok):
     """Read-only instances over pre-populated tapes: sha-256 of the drive and a full row dump before/after
     every call; every mutator must answer permission; reads must equal the writable twin's."""
